@@ -843,15 +843,19 @@ func (g *G) AnyResultType() *m.Type {
 func WrapTr(e *m.Expr, next *int, keep func() bool) *m.Expr {
 	n := *e
 	n.A = make([]*m.Expr, len(e.A))
+	bare := make([]bool, len(e.A))
 	for i, a := range e.A {
+		if keep != nil && keep() {
+			// some operands stay entirely bare - no wrapper on or inside them (a back
+			// end may treat call-free operands specially)
+			n.A[i], bare[i] = a, true
+			continue
+		}
 		n.A[i] = WrapTr(a, next, keep)
 	}
 	wrap := func(i int) {
-		if n.A[i].K == "call" && n.A[i].Name == "tr" {
+		if bare[i] || (n.A[i].K == "call" && n.A[i].Name == "tr") {
 			return
-		}
-		if keep != nil && keep() {
-			return // some operands stay bare (a back end may treat call-free operands specially)
 		}
 		*next++
 		n.A[i] = m.Call("tr", m.Lit("num", strconv.Itoa(*next)), n.A[i])
@@ -879,7 +883,7 @@ func WrapTr(e *m.Expr, next *int, keep func() bool) *m.Expr {
 func (g *G) ExprTraced(want *m.Type) *m.Expr {
 	e := g.expr(want, g.O.Fuel)
 	next := 1000
-	e = WrapTr(e, &next, func() bool { return g.chance("bare", 1, 5) })
+	e = WrapTr(e, &next, func() bool { return g.chance("bare", 1, 6) })
 	e = Parenthesize(e)
 	if g.O.Sugar {
 		e = g.redundantGroups(e)
